@@ -276,12 +276,28 @@ def run(ctx: Check, tree: Tree) -> None:
     ctx.section(check_single_source, ctx, tree)
 
     # ---- builder API == function API
+    ctx.section(check_memo_keys, ctx, tree)
     ctx.section(check_builder, ctx, tree, te)
     ctx.section(check_hankel_series, ctx, tree)
     from .c13 import check_same_decay, check_variable_set
 
     ctx.section(check_variable_set, ctx, tree)
     ctx.section(check_same_decay, ctx, tree)  # the builder is called for THIS node's variable set (no memo that ignores L)
+
+
+def check_memo_keys(ctx: Check, tree: Tree) -> None:
+    """R-MEMOKEY: "builder API == function API" holds for every STATE of a builder object, also after its public
+    attributes were re-assigned.  A per-instance memo whose key leaves out such an attribute hands out the expression
+    formulated for the old value."""
+    from ..rules import memo_key_hazards
+
+    hazards, judged = memo_key_hazards(tree, "ampform.dynamics")
+    for m, store, memo, missing in hazards:
+        ctx.violation("R-MEMOKEY", f"{m.qual}::memo {memo}::key-misses::{','.join(missing)}", tree.loc(store),
+                      f"{m.qual}: what is stored in `{memo}` depends on the public attribute(s) {missing}, which are not part of the key",
+                      "after `builder.<attribute> = ...` the builder returns the lineshape formulated for the previous value, while the function API uses the new one")
+    if not hazards:
+        ctx.ok("R-MEMOKEY", "src/ampform/dynamics", f"no per-instance memo in ampform.dynamics leaves a re-assignable attribute out of its key ({judged} memo(s) of the form `if K not in self.M: self.M[K] = V` judged)")
 
 
 class _NeedsVariable(BaseException):
